@@ -170,7 +170,7 @@ impl Cv {
                 }
                 my::Term::Tuple(name, fs)
             }
-            q::Term::String(_, segs) => {
+            q::Term::String(_, segs, ..) => {
                 let mut bytes = vec![];
                 for s in segs {
                     match s {
